@@ -43,7 +43,7 @@ def o1(tier):
     """no panic path in the MDK-owned parsers"""
     M.SEQ_BOUND[0] = 2 if tier == 'quick' else 3
     ob = Ob('O1', 'no feasible panic path (overflow, index out of bounds, unwrap/expect on None/Err, split_at / string range index) in the MDK-owned parsers and validators, for arbitrary input '
-                  f'(tag lists and value lists up to {M.SEQ_BOUND[0]} elements, all string/byte lengths symbolic)', models=CM.codec_models(), loop_bound=8, pure=C.PURE_MLS)
+                  f'(tag lists and value lists up to {M.SEQ_BOUND[0]} elements, all string/byte lengths symbolic)', models=CM.codec_models(), loop_bound=14, pure=C.PURE_MLS)
     ob.eng.model_maps = False
     total = 0
     done = []
@@ -185,8 +185,12 @@ def o7(tier):
     return r
 
 
+def o8(tier):
+    from props import lir
+    return lir.message_refusals(tier, 'O8', 'O8')
+
 def run(tier, seed, only=None):
-    obs = [('O1', o1), ('O1b', o1b), ('O2', o2), ('O3', o3), ('O4', o4), ('O5', o5), ('O6', o6), ('O7', o7)]
+    obs = [('O1', o1), ('O1b', o1b), ('O2', o2), ('O3', o3), ('O4', o4), ('O5', o5), ('O6', o6), ('O7', o7), ('O8', o8)]
     out = []
     for k, f in obs:
         if only and k not in only:
